@@ -299,7 +299,7 @@ func (f *formatter) writeFileHeader() {
 
 		f.writeImport(importNode, i > 0)
 	}
-	sort.Slice(optionNodes, func(i, j int) bool {
+	sort.SliceStable(optionNodes, func(i, j int) bool {
 		// The default options (e.g. cc_enable_arenas) should always
 		// be sorted above custom options (which are identified by a
 		// leading '(').
